@@ -41,13 +41,15 @@ var (
 	lvAlert  = log.RegisterLevel(450, "Alert")
 	lvTop    = log.RegisterLevel(998, "TOP")
 	lvOver   = log.RegisterLevel(1000, "OVER")
+	lvSec    = log.RegisterLevel(1100, "SEC")
+	lvAudit  = log.RegisterLevel(1200, "AUDIT")
 )
 
 var allLevels = []lvl{
 	{"NONE", 0, log.NoneLevel}, {"TRACE", 100, log.TraceLevel}, {"DEBUG", 200, log.DebugLevel}, {"INFO", 300, log.InfoLevel},
 	{"WARN", 400, log.WarnLevel}, {"ERROR", 500, log.ErrorLevel}, {"PANIC", 600, log.PanicLevel}, {"FATAL", 700, log.FatalLevel},
 	{"MAX", 999, log.MaxLevel}, {"LOWEST", 1, lvLowest}, {"NOTICE", 350, lvNotice}, {"ALERT", 450, lvAlert}, {"TOP", 998, lvTop},
-	{"NEG", -1, lvNeg}, {"OVER", 1000, lvOver},
+	{"NEG", -1, lvNeg}, {"OVER", 1000, lvOver}, {"SEC", 1100, lvSec}, {"AUDIT", 1200, lvAudit},
 }
 
 var builtin = allLevels[:9]
@@ -158,11 +160,21 @@ func effective(refs []rng) [][2]int {
 // ---------------------------------------------------------------- generator
 
 var levelPool = rapid.SampledFrom([]string{"NONE", "TRACE", "DEBUG", "INFO", "WARN", "ERROR", "PANIC", "FATAL", "MAX", "LOWEST", "NOTICE", "ALERT", "TOP", "INFO", "WARN", "DEBUG", "ERROR"})
-// Carve-out: no range bound above MAX is generated. MAX is documented as "the upper bound for
-// comparisons"; what a range reaching beyond it means (e.g. for the rolling-file logger's internal
-// [min,WARN)/[WARN,max) split) is not pinned down by the property. Events at MAX and above MAX
-// are still logged (no range admits them).
+// Carve-out: for the rolling-file logger no range bound above MAX is generated. MAX is documented
+// as "the upper bound for comparisons"; what a range reaching beyond it means for that logger's
+// internal [min,WARN)/[WARN,max) split is not pinned down by the property. Everywhere else an
+// explicit upper bound may be a user-registered level above MAX (OVER=1000, SEC=1100, AUDIT=1200):
+// the range is half-open over codes like any other. Events at MAX and above MAX are always logged.
 var rareLevel = rapid.SampledFrom([]string{"NEG", "NEG"})
+var overLevel = rapid.SampledFrom([]string{"AUDIT", "OVER", "SEC"})
+
+// liftMax replaces, now and then, an explicit upper bound by a user-registered level above MAX.
+func liftMax(t *rapid.T, label string, r rng) rng {
+	if r.HasMax && rapid.IntRange(0, 5).Draw(t, label+"lift") == 0 {
+		r.Max = overLevel.Draw(t, label+"over")
+	}
+	return r
+}
 
 func genLevelName(t *rapid.T, label string) string {
 	if rapid.IntRange(0, 24).Draw(t, label+"rare") == 0 {
@@ -196,10 +208,19 @@ type cfg struct {
 	Separate bool   // rolling only
 	Logger   rng
 	Refs     []rng // sync/async only
+	Target   []int // Target[i] = index of the appender reference i points at (usually i)
 	Order    []int // Order[i] = configuration index of reference i
 	Others   int   // competing loggers
 	Root     bool
 	Dir      string
+}
+
+// target: the appender reference i names (hand-written cases leave Target nil: r<i>).
+func (c cfg) target(i int) int {
+	if c.Target == nil {
+		return i
+	}
+	return c.Target[i]
 }
 
 func genCfg(t *rapid.T) cfg {
@@ -211,6 +232,9 @@ func genCfg(t *rapid.T) cfg {
 	}
 	c.Layout = rapid.SampledFrom([]string{"", "", "TextLayout", "JSONLayout"}).Draw(t, "layout")
 	c.Logger = genRange(t, "logger", nil)
+	if c.Kind != "rolling" {
+		c.Logger = liftMax(t, "logger", c.Logger)
+	}
 	switch c.Kind {
 	case "sync", "async":
 		n := rapid.IntRange(1, 4).Draw(t, "nrefs")
@@ -235,6 +259,21 @@ func genCfg(t *rapid.T) cfg {
 					}
 				}
 			}
+		}
+		for i := range c.Refs {
+			c.Refs[i] = liftMax(t, fmt.Sprintf("ref%d", i), c.Refs[i])
+		}
+		c.Target = seq(n)
+		if n >= 2 && rapid.IntRange(0, 3).Draw(t, "sameAppenderTwice") == 0 {
+			// two references of the logger name the same appender, with explicit disjoint ranges
+			// a~b and c~d (a < b <= c < d): the appender's levels are the union, not the hull
+			names := []string{"TRACE", "DEBUG", "INFO", "NOTICE", "WARN", "ALERT", "ERROR", "PANIC", "FATAL", "TOP"}
+			idx := rapid.SliceOfNDistinct(rapid.IntRange(0, len(names)-1), 4, 4, rapid.ID[int]).Draw(t, "dupBounds")
+			sort.Ints(idx)
+			pair := rapid.SliceOfNDistinct(rapid.IntRange(0, n-1), 2, 2, rapid.ID[int]).Draw(t, "dupRefs")
+			c.Refs[pair[0]] = rng{Min: names[idx[0]], HasMax: true, Max: names[idx[1]]}
+			c.Refs[pair[1]] = rng{Min: names[idx[2]], HasMax: true, Max: names[idx[3]]}
+			c.Target[pair[1]] = c.Target[pair[0]]
 		}
 		c.Order = rapid.Permutation(seq(n)).Draw(t, "order")
 	case "rolling":
@@ -288,7 +327,7 @@ func (c cfg) toMap(t *rapid.T) map[string]string {
 			if len(c.Refs) > 1 || rapid.Bool().Draw(t, "indexedSingle") {
 				key += "[" + strconv.Itoa(c.Order[i]) + "]"
 			}
-			m[key+".ref"] = name
+			m[key+".ref"] = fmt.Sprintf("r%d", c.target(i))
 			if !(r.Empty && rapid.Bool().Draw(t, fmt.Sprintf("omitLevel%d", i))) {
 				m[key+".level"] = r.render(t, fmt.Sprintf("rf%d", i))
 			}
@@ -330,7 +369,7 @@ func (c cfg) toMap(t *rapid.T) map[string]string {
 func (c cfg) desc() string {
 	var refs []string
 	for i, r := range c.Refs {
-		refs = append(refs, fmt.Sprintf("#%d@%d:%s", i, c.Order[i], r))
+		refs = append(refs, fmt.Sprintf("#%d@%d->r%d:%s", i, c.Order[i], c.target(i), r))
 	}
 	return fmt.Sprintf("kind=%s layout=%q async=%v separate=%v logger=%s refs=[%s] others=%d root=%v", c.Kind, c.Layout, c.Async, c.Separate, c.Logger, strings.Join(refs, " "), c.Others, c.Root)
 }
@@ -526,18 +565,31 @@ func runCase(t vk.TB, c cfg, m map[string]string, events []ev) error {
 	switch c.Kind {
 	case "sync", "async":
 		eff := effective(c.Refs)
-		for i := range c.Refs {
+		for k := range c.Refs { // appender r<k>: the union over the references that name it
 			want := map[int64]string{}
-			for _, e := range events {
-				if e.Tag == "a" && contains(llo, lhi, e.Level.code) && contains(eff[i][0], eff[i][1], e.Level.code) {
-					want[e.ID] = e.Level.name
+			var desc []string
+			for i := range c.Refs {
+				if c.target(i) != k {
+					continue
+				}
+				desc = append(desc, fmt.Sprintf("reference %s, effective [%d,%d)", c.Refs[i], eff[i][0], eff[i][1]))
+				for _, e := range events {
+					if e.Tag == "a" && contains(llo, lhi, e.Level.code) && contains(eff[i][0], eff[i][1], e.Level.code) {
+						want[e.ID] = e.Level.name
+					}
 				}
 			}
-			got, ok := fromRec(fmt.Sprintf("r%d", i))
+			got, ok := fromRec(fmt.Sprintf("r%d", k))
 			if !ok {
-				return fmt.Errorf("appender r%d was never started", i)
+				if len(desc) == 0 {
+					continue // an appender no reference names
+				}
+				return fmt.Errorf("appender r%d was never started", k)
 			}
-			if err := compare(fmt.Sprintf("appender r%d (reference %s, effective [%d,%d), logger %s)", i, c.Refs[i], eff[i][0], eff[i][1], c.Logger), got, want); err != nil {
+			if len(desc) == 0 {
+				desc = []string{"named by no reference"}
+			}
+			if err := compare(fmt.Sprintf("appender r%d (%s; logger %s)", k, strings.Join(desc, " + "), c.Logger), got, want); err != nil {
 				return err
 			}
 		}
@@ -692,7 +744,7 @@ func TestC01_Generated(t *testing.T) {
 			id++
 		}
 		nrec := rapid.IntRange(6, 10).Draw(t, "nrecord")
-		must := []string{"NONE", "MAX", "TOP", "OVER", "NEG"}
+		must := []string{"NONE", "MAX", "TOP", "OVER", "NEG", "SEC"}
 		for i := 0; i < nrec; i++ {
 			var l lvl
 			if i < len(must) {
